@@ -146,7 +146,7 @@ def run(ck):
     l1 = gen_corpus("L1")
     ls = gen_corpus("LS")
     lq = gen_corpus("LQ")
-    terms = ls + ck.rng.sample(l1, 700 if quick else len(l1)) + ck.rng.sample(lq, 300 if quick else len(lq))
+    terms = ls + ck.rng.sample(l1, min(len(l1), 700 if quick else len(l1))) + ck.rng.sample(lq, min(len(lq), 300 if quick else len(lq)))
     for j in terms:
         src_env = fresh_env()
         try:
